@@ -248,7 +248,7 @@ class BaseTemplate:
             )
         except RecursionError:
             raise
-        except BaseException:
+        except Exception:
             cls, exc, tb = sys.exc_info()
             try:
                 errors = rcontext.get('__error__')
